@@ -26,6 +26,15 @@ partial def parseChain (e : SExp) : TSrc × List Stage :=
   | "intervalat" => (.interval (some (arg 0).nat) (arg 1).nat, [])
   | "timer" => (.timer (parseVal (arg 0)) (arg 1).nat, [])
   | "timerat" => (.timer (parseVal (arg 0)) (arg 1).nat, [])
+  | "iterc" => (.iterc (arg 0).nat, [])
+  | "merge" | "zip" | "combine" | "withlatest" | "takeuntil" | "skipuntil" | "sample" | "buffer" =>
+    -- first input: a chain; second input: a bare source
+    let k : Kind2 := match e.head with
+      | "merge" => .merge | "zip" => .zip | "combine" => .combine | "withlatest" => .withLatest
+      | "takeuntil" => .takeUntil | "skipuntil" => .skipUntil | "sample" => .sample | _ => .buffer
+    let main := parseChain (arg 0)
+    let nsrc := (parseChain (arg 1)).1
+    (main.1, main.2 ++ [.op2n k.init nsrc false none])
   | "delay" => add (.delay (arg 0).nat true (some []))
   | "delayat" => add (.delay (arg 0).nat true (some []))
   | "observeon" => add (.observeOn true (some []))
@@ -75,6 +84,8 @@ def runTimeCase (id : String) (pipe : SExp) (events : List (List SExp)) : List S
       | .atom "q" :: .atom "timers" :: _ =>
         s!"{id}.{k} timers=[{String.intercalate "," (w.sched.timers.map fun t => toString t.dur)}]"
           :: go w (k + 1) r
+      | .atom "q" :: .atom "pulls" :: _ =>
+        s!"{id}.{k} pulls={w.pulls}" :: go w (k + 1) r
       | .atom "q" :: .atom "closed" :: _ =>
         s!"{id}.{k} closed={if w.isClosed then "1" else "0"}" :: go w (k + 1) r
       | _ =>
